@@ -191,8 +191,15 @@ def process_settings() -> dict:
     """Interpreter-wide settings a call could change and later calls depend on (part of every outcome digest in the
     history and schedule checks: a call must leave them as it found them, or at least always leave them the same)."""
     import sys
+    import warnings
 
-    return {"recursionlimit": sys.getrecursionlimit()}
+    return {
+        "recursionlimit": sys.getrecursionlimit(),
+        # the warnings machinery is process-global: a call that saves and restores it (catch_warnings) around its own
+        # work leaves it changed when two such calls overlap
+        "warnings": [len(warnings.filters), getattr(warnings.showwarning, "__qualname__", type(warnings.showwarning).__name__),
+                     getattr(warnings, "_showwarnmsg_impl", None) is not None],
+    }
 
 
 def failure_digest(exc: BaseException) -> dict:
